@@ -15,6 +15,16 @@ cBase == {}
 cItems == <<>>
 =============================================================================
 EOT
+[ -f spec/gen/C07_Tables.tla ] || cat > spec/gen/C07_Tables.tla <<'EOT'
+------------------------------ MODULE C07_Tables ------------------------------
+EXTENDS TLC
+Tab == ("conj" :> <<35, "R">>) @@ ("neg" :> <<40, "U">>)
+Sym == ("conj" :> "&") @@ ("neg" :> "~")
+Unary == {"neg"}
+Ladder == << <<"R", {"conj"}>>, <<"P", {"neg"}>> >>
+Typable == {}
+=============================================================================
+EOT
 rc=0
 for f in spec/lib/*.tla spec/*.tla; do
   out=$(cd "$(dirname "$f")" && java -DTLA-Library=/verif/spec/lib:/verif/spec:/verif/spec/gen -cp /opt/veriftools/tla/tla2tools.jar:/opt/veriftools/tla/CommunityModules-deps.jar tla2sany.SANY "$(basename "$f")" 2>&1)
